@@ -162,3 +162,23 @@ Proof.
   - apply Forall_forall. intros i Hi. rewrite Forall_forall in Hf. apply Hf.
     eapply sublist_incl; [apply sublist_firstn|exact Hi].
 Qed.
+
+(* ------------------------------------------------------------------ contexts are ignored *)
+Definition oblivious {A} (f : cstream -> A) : Prop := forall s s', map fst s = map fst s' -> f s = f s'.
+Lemma on_records_oblivious {A} (v : list record -> A) : oblivious (on_records v).
+Proof. intros s s' H. unfold on_records. now rewrite H. Qed.
+
+Lemma tail_plus_counts_arrivals n (s : cstream) :
+  on_records (tail n true []) s = skipn (Z.to_nat (Z.max (n - 1) 0)) (map fst s).
+Proof. apply tail_plus_ungrouped. Qed.
+
+Lemma tail_plus_is_not_by_nr :
+  let s : cstream := [([(B "i", B "1")], (1, 1, [])); ([(B "i", B "3")], (3, 3, [])); ([(B "i", B "5")], (5, 5, []))] in
+  on_records (tail 3 true []) s = [[(B "i", B "5")]]
+  /\ tail_plus_by_nr 3 s = [[(B "i", B "3")]; [(B "i", B "5")]].
+Proof. cbn zeta. split; reflexivity. Qed.
+Lemma tail_plus_differs_from_by_nr : exists s, on_records (tail 3 true []) s <> tail_plus_by_nr 3 s.
+Proof.
+  exists [([(B "i", B "1")], (1, 1, [])); ([(B "i", B "3")], (3, 3, [])); ([(B "i", B "5")], (5, 5, []))].
+  vm_compute. discriminate.
+Qed.
